@@ -3,6 +3,7 @@
 //   pv <N> <op>...   prevector<N,int> for N in {1,2,4,8,16}, prevector<36,unsigned char> (CScriptBase) for N=36
 //   vd <op>...       VecDeque<int>
 //   bd <B> <op>...   bitdeque<B> for B in {1,3,8,128}
+//   pool <MAXB> <ALIGN> <chunk_bytes> <op>...   PoolResource<MAXB,ALIGN>(chunk_bytes)
 // A step whose precondition (as for the std container) is violated prints "UB" and ends the script
 // (the generators never produce such steps; shrinking may).
 #include <drv_common.h>
@@ -30,7 +31,30 @@
 #undef class
 #undef private
 #include <support/allocators/pool.h>
-#include <test/util/poolresourcetester.h>
+
+// PoolResource declares `friend class PoolResourceTester;` for tests.  This driver defines that class itself
+// (instead of including test/util/poolresourcetester.h) because it needs the chunk list and the full free
+// lists, which the repo's helper does not expose.
+class PoolResourceTester
+{
+public:
+    template <std::size_t M, std::size_t A>
+    static const std::list<std::byte*>& Chunks(const PoolResource<M, A>& r) { return r.m_allocated_chunks; }
+    template <std::size_t M, std::size_t A>
+    static std::vector<std::vector<const void*>> FreeLists(const PoolResource<M, A>& r)
+    {
+        std::vector<std::vector<const void*>> out;
+        for (const auto* ptr : r.m_free_lists) {
+            std::vector<const void*> l;
+            size_t guard = 0;
+            while (ptr != nullptr && guard++ < 100000) { l.push_back(ptr); ptr = ptr->m_next; }
+            out.push_back(l);
+        }
+        return out;
+    }
+    template <std::size_t M, std::size_t A>
+    static std::size_t Avail(const PoolResource<M, A>& r) { return r.m_available_memory_end - r.m_available_memory_it; }
+};
 
 #include <sys/wait.h>
 #include <unistd.h>
@@ -209,6 +233,70 @@ std::string run_bd(const std::vector<std::string>& w)
     return out;
 }
 
+// ------------------------------------------------------------------------------------------------
+// pool <MAXB> <ALIGN> <chunk_bytes> <op>...    op = a:<bytes>:<alignment> | f:<index into the live list>
+// Addresses are printed relative to the chunks: chunk k is [k*chunk_size, (k+1)*chunk_size).
+template <std::size_t M, std::size_t A>
+std::string run_pool(const std::vector<std::string>& w)
+{
+    const size_t chunk_bytes = std::stoull(w[3]);
+    PoolResource<M, A> res(chunk_bytes);   // asserts chunk size >= M
+    const long long cs = (long long)res.ChunkSizeBytes();
+    auto rel = [&](const void* p) -> long long {
+        long long k = 0;
+        for (const std::byte* c : PoolResourceTester::Chunks(res)) {
+            if ((const std::byte*)p >= c && (const std::byte*)p < c + cs) return k * cs + ((const std::byte*)p - c);
+            ++k;
+        }
+        return -3; // not inside any chunk
+    };
+    struct Live { void* p; size_t bytes; size_t al; };
+    std::vector<Live> live;
+    std::string out;
+    for (size_t k = 4; k < w.size(); ++k) {
+        auto f = split(w[k], ':');
+        long long result = -2;
+        bool ub = false;
+        if (f[0] == "a") {
+            size_t bytes = std::stoull(f.at(1)), al = std::stoull(f.at(2));
+            void* p = res.Allocate(bytes, al);
+            bool pooled = al <= std::max<size_t>(A, alignof(void*)) && bytes <= M;
+            result = pooled ? rel(p) : -1;
+            live.push_back({p, bytes, al});
+        } else if (f[0] == "f") {
+            size_t i = std::stoull(f.at(1));
+            if (i >= live.size()) ub = true;
+            else { res.Deallocate(live[i].p, live[i].bytes, live[i].al); live.erase(live.begin() + i); }
+        } else return "BADCASE";
+        if (!out.empty()) out += " ";
+        if (ub) { out += "UB"; break; }
+        std::string fls;
+        auto fl = PoolResourceTester::FreeLists(res);
+        for (size_t c = 0; c < fl.size(); ++c) {
+            if (fl[c].empty()) continue;
+            if (!fls.empty()) fls += ";";
+            fls += std::to_string(c) + "=";
+            for (size_t j = 0; j < fl[c].size(); ++j) { if (j) fls += ","; fls += std::to_string(rel(fl[c][j])); }
+        }
+        if (fls.empty()) fls = "-";
+        out += std::to_string(result) + "/" + std::to_string(res.NumAllocatedChunks()) + "/" + std::to_string(PoolResourceTester::Avail(res)) + "/" + fls;
+    }
+    for (auto& l : live) res.Deallocate(l.p, l.bytes, l.al);
+    return out;
+}
+std::string dispatch_pool(const std::vector<std::string>& w)
+{
+    if (w.size() < 4) return "BADCASE";
+    const std::string key = w[1] + "/" + w[2];
+    if (key == "128/8") return run_pool<128, 8>(w);
+    if (key == "8/8") return run_pool<8, 8>(w);
+    if (key == "64/16") return run_pool<64, 16>(w);
+    if (key == "144/8") return run_pool<144, 8>(w);
+    if (key == "32/1") return run_pool<32, 1>(w);
+    if (key == "16/4") return run_pool<16, 4>(w);
+    return "BADCASE";
+}
+
 // The cases run in a forked worker; when a changed container corrupts memory (crash, abort from the
 // allocator, hang) the worker dies, that case gets the result line "CRASH ..." and a new worker continues
 // with the next case, so one bad case does not kill the batch.  (fork is slow here: one per crash only.)
@@ -282,6 +370,7 @@ int main(int argc, char** argv)
             }
         }
         if (w.size() >= 1 && w[0] == "vd") return run_vd(w);
+        if (w.size() >= 1 && w[0] == "pool") return dispatch_pool(w);
         if (w.size() >= 2 && w[0] == "bd") {
             switch (std::stoi(w[1])) {
             case 1: return run_bd<1>(w);
